@@ -78,9 +78,13 @@ impl Scenario for C09S {
         let (first, _) = predict_frag(sim["sndbuf"].as_u64(), inproc);
         let n = r.range(1, 10);
         let msgs: Vec<Value> = (0..n).map(|_| json!([size_classes(&mut r, first) as u64, r.chance(1, 4)])).collect();
-        let modes: &[&str] = if inproc { &["drop", "drop_first", "carrier_drop", "transit_unpack"] } else { &["drop", "drop", "drop_first", "crash", "crash", "carrier_drop", "transit_unpack"] };
+        let modes: &[&str] = if inproc { &["drop", "drop_first", "carrier_drop", "transit_unpack", "transit_unpack_drop"] } else { &["drop", "drop", "drop_first", "crash", "crash", "carrier_drop", "transit_unpack", "transit_unpack_drop", "transit_unpack_drop"] };
         let mode = *r.pick(modes);
+        if !inproc {
+            sim["faults"] = json!(gen_env_faults(&mut r, 150));
+        }
         json!({
+            "unpack_try": r.chance(1, 2),
             "sim": sim, "mode": mode, "msgs": msgs,
             "sender_proc": !inproc && r.chance(1, 3),
             "recv_first": r.below(n + 1),
@@ -135,12 +139,14 @@ impl Scenario for C09S {
                     }
                 });
             },
-            "carrier_drop" | "transit_unpack" => {
+            "carrier_drop" | "transit_unpack" | "transit_unpack_drop" => {
                 let (ctx, crx) = ipc::channel::<IpcReceiver<M9>>().unwrap();
                 hist::log("pack.inv", 0, 0, 0, "");
                 ctx.send(rx).unwrap();
                 hist::log("pack.ret", 0, 0, 0, "");
-                let unpack = mode == "transit_unpack";
+                let unpack = mode != "carrier_drop";
+                let then_drop = mode == "transit_unpack_drop";
+                let unpack_try = p["unpack_try"].as_bool().unwrap_or(false);
                 sim::spawn("holder", None, move || {
                     let _keep = ctx;
                     if delay > 0 {
@@ -152,9 +158,17 @@ impl Scenario for C09S {
                     }
                     if unpack {
                         hist::log("unpack.inv", 0, 0, 0, "");
-                        let rx = crx.recv().unwrap();
+                        let rx = if unpack_try { crx.try_recv().unwrap() } else { crx.recv().unwrap() };
                         hist::log("unpack.ret", 0, 0, 0, "");
-                        recv_some(&rx, u64::MAX);
+                        if then_drop {
+                            recv_some(&rx, m);
+                            sim::sleep_ns(delay);
+                            hist::log("droprx.inv", 0, 0, 0, "");
+                            drop(rx);
+                            hist::log("droprx.ret", 0, 0, 0, "");
+                        } else {
+                            recv_some(&rx, u64::MAX);
+                        }
                     } else {
                         hist::log("droprx.inv", 0, 0, 0, "carrier");
                         drop(crx);
